@@ -60,7 +60,9 @@ RECURSIVE C10Fold(_, _)
 C10Fold(a, S) == IF S = <<>> THEN a ELSE C10Fold(C10Send(a, Head(S)), Tail(S))
 
 C10Step(m, o) ==
-    LET told == MergeTold(m.told, ToldPairs(o))
+    \* what it was told, plus what it knows first hand: its own identity at its own incarnation
+    \* (the Down of a former identity is gossiped after a move to another address)
+    LET told == MergeTold(m.told, ToldPairs(o) \cup {<<o.pre.id, o.hpre.inc>>})
         idChanged == o.post.id # o.pre.id
         restart == idChanged \/ (o.call = "reuse" /\ o.res = "Ok")
         \* the identity in use is tracked from the public getter between calls
